@@ -21,7 +21,8 @@ Families
 Criteria relying on the default search (HedgeLoss.cash = bisect over [min, max]):
 IsoelasticLoss, OCE(exponential utility) and two user subclasses (mean-variance with
 gamma * range <= 1 so that the certainty equivalent is inside [min, max]; the non-smooth
-blend -(mean + min)/2, and its risk-seeking mirror -(mean + max)/2 for which "cash <= mean" is
+blend -(mean + min)/2, the worst case -min and a tail mean (user expected shortfall), whose
+certainty equivalent coincides with the worst outcome, and the risk-seeking mirror -(mean + max)/2 for which "cash <= mean" is
 not demanded).  Finding 8 is classified from the input: the whole sample constant
 (-> ValueError "lower < upper") resp. more than one column (-> candidates are reduced along
 dim 0 as if they were paths); any failure on a non-constant single-column sample keeps a
@@ -48,14 +49,16 @@ def family(fn):
 SEARCH_PREC = 1e-6          # documented default precision of the default search (bisect)
 GAMMA = 0.125               # mean-variance user criterion
 CLOSED = ("erm", "eloss", "es", "qcvar")
-DEFAULT = ("iso", "oce", "user_mv", "user_blend", "user_optimist")
+DEFAULT = ("iso", "oce", "user_mv", "user_blend", "user_optimist", "user_worst", "user_es")
 NOT_RISK_AVERSE = ("user_optimist",)   # certainty equivalent above the mean: "cash <= mean" is not demanded
 PARAMS = {"erm": [0.1, 1.0, 10.0], "eloss": [0.1, 1.0, 10.0], "es": [0.05, 0.2, 1 / 3, 0.5, 0.75, 1.0],
           "qcvar": [1.0, 2.0, 10.0, 100.0], "iso": [0.25, 0.5, 1.0], "oce": [0.0, 0.5],
-          "user_mv": [GAMMA], "user_blend": [0.5], "user_optimist": [0.5]}
+          "user_mv": [GAMMA], "user_blend": [0.5], "user_optimist": [0.5],
+          "user_worst": [0.0], "user_es": [0.05, 0.5]}
 NAMES = {"erm": "EntropicRiskMeasure", "eloss": "EntropicLoss", "es": "ExpectedShortfall",
          "qcvar": "QuadraticCVaR", "iso": "IsoelasticLoss", "oce": "OCE", "user_mv": "MeanVariance(user)",
-         "user_blend": "MeanMinBlend(user)", "user_optimist": "MeanMaxBlend(user)"}
+         "user_blend": "MeanMinBlend(user)", "user_optimist": "MeanMaxBlend(user)",
+         "user_worst": "WorstCase(user)", "user_es": "TailMean(user)"}
 
 _USER = {}
 
@@ -97,7 +100,30 @@ def _user_classes():
                 pl = input - target
                 return -(self.w * pl.mean(0) + (1 - self.w) * pl.amax(0))
 
+        class WorstCase(HedgeLoss):
+            """User criterion whose certainty equivalent IS the worst outcome: -min."""
+
+            def __init__(self, unused=0.0):
+                super().__init__()
+
+            def forward(self, input, target=0.0):
+                return -(input - target).amin(0)
+
+        class TailMean(HedgeLoss):
+            """User expected shortfall without a closed-form cash(): -mean of the ceil(pN) worst
+            outcomes (certainty equivalent = worst outcome when ceil(pN) = 1 or the tail is tied)."""
+
+            def __init__(self, p):
+                super().__init__()
+                self.p = p
+
+            def forward(self, input, target=0.0):
+                pl = input - target
+                k = max(1, math.ceil(self.p * pl.size(0)))
+                return -pl.sort(0).values[:k].mean(0)
+
         _USER["mv"], _USER["blend"], _USER["optimist"] = MeanVariance, MeanMinBlend, MeanMaxBlend
+        _USER["worst"], _USER["es"] = WorstCase, TailMean
     return _USER
 
 
@@ -116,6 +142,10 @@ def make(crit, param, dtype):
         return _user_classes()["blend"](param)
     if crit == "user_optimist":
         return _user_classes()["optimist"](param)
+    if crit == "user_worst":
+        return _user_classes()["worst"](param)
+    if crit == "user_es":
+        return _user_classes()["es"](param)
     raise KeyError(crit)
 
 
@@ -126,7 +156,7 @@ def site_of(crit):
 def const_slope(crit, param, c):
     """|d/dc criterion(constant sample c)| (float64 tensor)."""
     c = c.to(torch.float64)
-    if crit in ("erm", "es", "qcvar", "user_mv", "user_blend", "user_optimist"):
+    if crit in ("erm", "es", "qcvar", "user_mv", "user_blend", "user_optimist", "user_worst", "user_es"):
         return torch.ones_like(c)
     if crit == "eloss":
         return param * torch.exp(-param * c)
@@ -506,6 +536,19 @@ def price(ctx, block):
         sign = "sign" if abs(g + want) <= tol and abs(want) > tol else "value"
         ctx.violation(site, f"not_minus_cash:{sign}", f"price() with {name} on {tag} (n_times={n_times}) != "
                       f"-cash(portfolio - payoff) on the same paths", observed=g, expected=want, block=block)
+    # (2b) tail criteria: the certainty equivalent is known independently of cash():
+    # price = minus the cash amount = the exact expected shortfall of portfolio - payoff
+    # (worst case: the largest loss; an unhedged short call is priced at its largest payoff)
+    if crit in ("es", "user_es", "user_worst"):
+        from mc.models import risk_ref as R
+        lvl = 1e-12 if crit == "user_worst" else p
+        refs = [float(R.expected_shortfall(q.to(torch.float64).tolist(), lvl)) for q in pls]
+        ref = sum(refs) / n_times
+        ctx.tick(1, nontrivial=1)
+        if not abs(g - ref) <= tol:
+            ctx.violation(site, "not_certainty_equivalent", f"price() with {name} on {tag}: the indifference price is "
+                          f"the {'largest loss' if crit == 'user_worst' else 'mean of the ceil(pN) largest losses'} of "
+                          f"portfolio - payoff on the scripted paths", observed=g, expected=ref, block=block)
     # (3) entropic risk measure: the price is the loss
     if crit == "erm":
         sim.calls = 0
@@ -585,7 +628,8 @@ def price_blocks(ctx):
     A0, A1 = [6, 8, 10, 12], [7, 8, 9, 11]
     Ts = [3] if ctx.quick else [3, 4]
     crits = [("erm", 1.0), ("erm", 10.0), ("eloss", 1.0), ("es", 0.5), ("es", 0.05), ("qcvar", 1.0), ("qcvar", 10.0),
-             ("iso", 0.5), ("user_blend", 0.5), ("oce", 0.5)]
+             ("iso", 0.5), ("user_blend", 0.5), ("oce", 0.5), ("user_worst", 0.0), ("user_es", 0.05),
+             ("user_es", 0.5)]
     for T in Ts:
         for kind in market.ALL_DERIVATIVE_KINDS:
             for mv in ("naked", "linear", "bs"):
